@@ -54,7 +54,7 @@ class C13(flow.Spec):
             out.append(("inflight %d %d" % (n, g), {"apply-in-flight-at-shutdown"}))
         # the same on a REAL node (start_with_config) shut down exactly like command/agent.rs:
         # kind 0 = the change handler applies a version, kind 1 = the buffered-apply loop does
-        # kind 2 = a local transaction through the HTTP API, acknowledged, then the signal (known finding)
+        # kind 2 = a local transaction through the HTTP API, acknowledged, then the signal
         real = [(0, 300, 0), (1, 2000, 0), (1, 20000, 100), (0, 3000, 10), (2, 1, 0), (2, 1, 500)]
         if tier != "quick":
             real += [(k, n, g) for k in (0, 1) for n in (100, 1000, 8000) for g in (0, 5, 50, 300)]
@@ -91,8 +91,9 @@ class C13(flow.Spec):
             elif stop == "S":
                 toks += ["TR", "W", "UN", "DD"]
             elif stop == "T":
-                # the transaction's candidates are produced by a task that runs after the handles are gone
-                toks += ["TR", "UN", "W", "DD"]
+                # the transaction's candidates are produced by a task spawned after the commit; the
+                # shutdown waits for it before the handles are dropped
+                toks += ["TR", "W", "UN", "DD"]
             elif stop == "C":
                 toks += ["UN", "CA0", "W", "TR", "UN", "DD"]
             elif stop == "D":
@@ -190,8 +191,6 @@ class C13(flow.Spec):
         return False if self.failures(case, impl_obs) else None
 
     def classify(self, case, impl_obs):
-        if case.startswith("realstop 2 ") and self.failures(case, impl_obs) == [(0, "stale")]:
-            return "write-acknowledged-at-shutdown"
         if case.startswith(("inflight", "realstop")):
             return None
         fails = self.failures(case, impl_obs)
@@ -203,9 +202,6 @@ class C13(flow.Spec):
             # everything later is the same stale subscription being carried along
             if all(r == "stale" for _, r in fails):
                 return "cancelled-then-restored"
-        if first[1] == "stale" and first[0] != "final" and phases[first[0]][1] == "T":
-            if all(r == "stale" for _, r in fails):
-                return "write-acknowledged-at-shutdown"
         return None
 
 
